@@ -455,6 +455,40 @@ Definition select_obs (cs : list cfg) (t : task) : (err + option nat) * option o
   | inr (Some (i, c)) => (inr (Some i), Some (snd (get_launch_cmds c [] t)))
   end.
 
+(* Popen.work(bulk): every task of the bulk is handled on its own
+   (_handle_task): find_launcher, then the selected launcher's command goes
+   into the launch script and the script is spawned; a task without launcher,
+   or whose can_launch / get_launch_cmds raises, is FAILED.  The launcher
+   objects are shared by the tasks of the bulk: their states are threaded
+   through (sts: one state per launcher of the launch order). *)
+Inductive handled := HFailed | HLaunched (i : nat) (cmd : command).
+
+Fixpoint upd {A} (i : nat) (x : A) (l : list A) : list A :=
+  match l, i with
+  | [], _ => []
+  | _ :: r, O => x :: r
+  | y :: r, S k => y :: upd k x r
+  end.
+
+Definition handle_st (cs : list cfg) (sts : list lm_state) (t : task) : list lm_state * handled :=
+  match find_launcher cs t with
+  | inr (Some (i, c)) =>
+      let '(st', o) := get_launch_cmds c (nth i sts []) t in
+      (upd i st' sts, match o with inr cmd => HLaunched i cmd | inl _ => HFailed end)
+  | _ => (sts, HFailed)
+  end.
+
+Fixpoint work_st (cs : list cfg) (sts : list lm_state) (bulk : list task) : list handled :=
+  match bulk with
+  | [] => []
+  | t :: r => let '(sts', h) := handle_st cs sts t in h :: work_st cs sts' r
+  end.
+
+(* fresh launcher objects *)
+Definition fresh (cs : list cfg) : list lm_state := map (fun _ => []) cs.
+Definition handle (cs : list cfg) (t : task) : handled := snd (handle_st cs (fresh cs) t).
+Definition work (cs : list cfg) (bulk : list task) : list handled := work_st cs (fresh cs) bulk.
+
 (* ================================================================== *)
 (* Denotation of a command (trusted: launcher CLI semantics)           *)
 (* ================================================================== *)
